@@ -24,6 +24,13 @@ class Box:
   def plus(self, y):
     return self.val + y
 
+  @property
+  def _val(self):
+    return self.val
+
+  def _plus2(self):
+    return self.val + 2
+
   def me(self):
     return self
 
@@ -101,6 +108,10 @@ def apply_op(obj, op):
     return obj.items[2]
   if op == 'plus1':
     return obj.plus(1)
+  if op == 'uval':
+    return obj._val
+  if op == 'uplus2':
+    return obj._plus2()
   if op == 'me_val':
     return obj.me().val
   if op == 'boom':
